@@ -283,7 +283,7 @@ def gen_x(tier, rng):
                 n += 1
                 yield mkx(k, ['resize:' + fmt(sh), 'fill:%d' % base, 'dcast:' + t, 'copy'], g, n, ['dcast', 'dtype=' + t])
     # random sequences of <= 6 operations (fills after a resize are not counted)
-    count = 1500 if tier == 'quick' else 12000
+    count = 1500 if tier == 'quick' else 30000
     for _ in range(count):
         g = rng.randint(0, 3)
         kind = rng.choice(XKINDS)
@@ -481,7 +481,7 @@ def gen_mviewall(tier, rng):
                 out.append(e)
         return out
     pats = [None] + [(3,) + m for m in itertools.product([False, True], repeat=3) if any(m)] + [(2,) + m for m in itertools.product([False, True], repeat=2)]
-    per = {2: (40 if tier == 'quick' else 120), 3: (14 if tier == 'quick' else 60)}
+    per = {2: (40 if tier == 'quick' else 200), 3: (14 if tier == 'quick' else 100)}
     for s in all_shapes:
         if len(s) < 2:
             continue
